@@ -19,7 +19,7 @@ Local Open Scope N_scope.
 (* ------------------------------------------------------------------ *)
 (* fields at fixed offsets of a message (total readers; every use below is
    behind a length check, the default 0 is never observable -- see
-   Proofs.byte_at_rd)                                                    *)
+   Proofs.rd_byte_at)                                                    *)
 Definition byte_at (bs : bytes) (i : N) : N := nth (N.to_nat i) bs 0.
 Definition u16_at (bs : bytes) (i : N) : N := be16 (byte_at bs i) (byte_at bs (i + 1)).
 Definition u32_at (bs : bytes) (i : N) : N :=
